@@ -74,6 +74,9 @@ THEOREMS = [
     # the public entry point (form of hkl, return_hexagonal, centring key) end to end; the headline for the generated code
     'C14.hklForm_refuses_iff', 'C14.hklForm_default', 'C14.planeOf_spec', 'C14.fsbEntry_correct',
     'C14.fsbEntry_value_error_iff', 'C14.gen_free_surface_basis_correct',
+    # the cut is between atomic planes for EVERY atom (not only the kept layer representatives) and in the BUILT system
+    'C14.roundKey_close', 'C14.shift_between_planes_all_atoms', 'C14.surface_cut_between_planes',
+    'C14.surface_cut_between_planes_any',
 ]
 PARTIAL = {
     'isclose_as_exact_zero': 'np.isclose(x, 0) / np.isclose(mag, b_mag) / the arccos-based angle comparisons are modelled '
@@ -93,10 +96,10 @@ PARTIAL = {
                                      '`surfaceAtoms` produces is such a union of orbits (a reordering of the replica '
                                      'loops) is not derived in Lean: the search oracle checks the restoration on the real '
                                      'systems for a1vect, a2vect and combinations',
-    'shift_between_planes': 'stated for the layer representatives the code keeps (the first atom of each rounded '
-                            'coordinate, `layerCoords_spec`): an atom whose coordinate rounds to the same value lies within '
-                            '10^-numdec of its representative, which is not subtracted from the half-gap bound in the '
-                            'theorem (the search oracle measures the true distances on the built systems)',
+    'shift_between_planes': 'closed in this round for every atom of the rotated cell (`shift_between_planes_all_atoms`: half the '
+                            'interlayer gap minus the rounding step 10^-numdec) and for every atom of the BUILT system, all '
+                            'three cuts (`surface_cut_between_planes_any`); left: when two genuine layers are closer than '
+                            '2 * 10^-numdec the bound says nothing (the code itself merges them into one layer)',
     'rotate_and_normalize': 'the rotated cell itself (System.rotate + normalize) is C04/C05 territory: here it enters as the '
                             'given cell `rbox` with its atoms; the search oracle checks on the real objects that it is a '
                             'proper rotation of uvws.vects holding det(uvws) copies of every unit-cell atom',
@@ -1342,7 +1345,7 @@ def compare_fsb(ctx, job, impl, out, exact_regime, kindname):
     info = {'op': 'fsb', 'vects': vects, 'hkl': list(hkl), 'cut': cut, 'maxindex': n, 'setting': setting,
             'return_hexagonal': rh, 'impl': impl, 'model': out}
     m = parse_fsb(out)
-    hkl3 = hkl if len(hkl) == 3 else (hkl[0], hkl[1], hkl[3])
+    hkl3 = (hkl[0], hkl[1], hkl[3]) if len(hkl) == 4 else hkl
     if impl[0] == 'err':
         if 'err' not in m:
             # a search that fails only because its best candidate ties with the initial bound |[n,n,n]| (the model
@@ -1487,6 +1490,15 @@ def _fsb_jobs(ctx):
     jobs.append(((cub, (1, 0, 0), 'c', None, None, True), True, 'refusal'))             # return_hexagonal, cubic
     jobs.append(((hexE, (1, 1, 1, 0), 'c', None, None, None), True, 'refusal'))         # h+k+i != 0
     jobs.append(((hexE, (0, 0, 0, 0), 'c', None, None, None), True, 'refusal'))
+    # the whole form matrix of the entry point (model `hklForm` / `planeOf`): number of indices 2..5 x hexagonal or not x
+    # return_hexagonal None / True / False, an unknown centring key, four indices with h + k + i != 0 and an explicit form
+    for bx, tag in ((hexE, 'hex'), (cub, 'cub'), (tri, 'tri')):
+        for idx in ((1, 1), (1, 0, 2), (2, -1, -1, 1), (1, 0, -1, 0, 2)):
+            for rh in (None, True, False):
+                jobs.append(((bx, idx, CUTS[(len(idx) + (rh is None)) % 3], 3, None, rh), True, 'form:' + tag))
+    jobs.append(((cub, (1, 1, 0), 'c', None, 'q', None), True, 'form:setting'))
+    jobs.append(((hexE, (1, 1, 0), 'b', None, 'P', None), True, 'form:setting'))
+    jobs.append(((hexE, (1, 1, -1, 0), 'a', None, None, False), True, 'form:sum'))
     for hkl in [(3, 1, 0), (2, 3, 1), (4, 1, -3), (1, 2, 3), (0, 3, 2), (5, 0, 1)]:
         for n in (0, 1, 2):
             jobs.append(((tri, hkl, CUTS[n], n, None, None), True, 'small-maxindex'))
